@@ -112,6 +112,46 @@ Definition rw_step (pkg : string) (files anns : list string) : res (list string)
 Definition rw_run (pkg : string) (files : list string) (steps : list (list string)) : list (res (list string)) :=
   map (rw_step pkg files) steps.
 
+(* ---- LocalPackageReadWriter with its options ----
+   Read: LocalPackageReader walks the package and, for every file it opens, stamps the file's path relative
+   to the package onto every resource of that file (internal and legacy path annotation, SetAnnotation:
+   an annotation of that name CARRIED IN THE FILE'S CONTENT is overwritten).  The read-writer does not pass
+   its OmitReaderAnnotations on, so this happens whatever that option says.  r.files = the set of those paths,
+   unless NoDeleteFiles.  KeepReaderAnnotations only affects what the writer leaves in the files. *)
+Record rw_opts : Type := mkRwOpts {
+  o_omit : bool;          (* OmitReaderAnnotations *)
+  o_keep : bool;          (* KeepReaderAnnotations *)
+  o_nodelete : bool       (* NoDeleteFiles *)
+}.
+
+(* the path annotation of a resource after Read: the stamped one, whatever it carried *)
+Definition stamped_path (o : rw_opts) (relpath carried : string) : string := relpath.
+
+(* a file as Read sees it: its path relative to the package and, per resource, the path annotation the
+   content carries ("" = none) *)
+Definition pkg_file : Type := (string * list string)%type.
+
+(* path annotations of the resources Read returns, file by file *)
+Definition rw_read_paths (o : rw_opts) (files : list pkg_file) : list string :=
+  flat_map (fun f => map (stamped_path o (fst f)) (snd f)) files.
+
+Fixpoint dedup (l : list string) : list string :=
+  match l with
+  | [] => []
+  | x :: t => if str_in x t then dedup t else x :: dedup t
+  end.
+
+(* r.files after Read *)
+Definition rw_tracked (o : rw_opts) (files : list pkg_file) : list string :=
+  if o_nodelete o then [] else dedup (rw_read_paths o files).
+
+Definition rw_step_o (o : rw_opts) (pkg : string) (files : list pkg_file) (anns : list string) : res (list string) :=
+  rw_step pkg (rw_tracked o files) anns.
+
+Definition rw_run_o (o : rw_opts) (pkg : string) (files : list pkg_file) (steps : list (list string))
+  : list (res (list string)) :=
+  map (rw_step_o o pkg files) steps.
+
 (* a relative path as LocalPackageReader records it (filepath.Rel of a walked file): good names only *)
 Definition rel_canon (f : string) : Prop :=
   exists cs, cs <> [] /\ canon_comps cs = true /\ f = join_with sep cs.
